@@ -103,6 +103,38 @@ def _flush_of_cout(n):
     return False
 
 
+def cout_state_as_value(fn):
+    """Reads of std::cout's state (fail/good/bad/operator bool/!) whose result is stored or passed on
+    instead of being branched on where it is read."""
+    out = []
+    for n in fn.walk():
+        is_read = False
+        if n.get("k") == "CXXMemberCallExpr":
+            cal = strip(n["c"][0])
+            if cal and cal.get("n") in ("fail", "good", "bad", "operator bool", "eof", "rdstate") and cal.get("c") and _refs_cout(cal["c"][0]):
+                is_read = True
+        elif n.get("k") == "CXXOperatorCallExpr" and n.get("op") == "!" and len(n["c"]) == 2 and _refs_cout(n["c"][1]):
+            is_read = True
+        if not is_read:
+            continue
+        # climb through !, &&, ||, casts: is the value the condition of a branch?
+        cur = n
+        branched = False
+        for a in fn.ancestors(n):
+            k = a.get("k")
+            if k in ("ImplicitCastExpr", "ParenExpr", "ExprWithCleanups", "CXXBoolLiteralExpr") or \
+                    (k == "UnaryOperator" and a.get("op") == "!") or (k == "BinaryOperator" and a.get("op") in ("&&", "||")) or \
+                    (k == "CXXOperatorCallExpr" and a.get("op") == "!"):
+                cur = a
+                continue
+            if k in ("IfStmt", "WhileStmt", "DoStmt", "ForStmt", "ConditionalOperator"):
+                branched = True
+            break
+        if not branched:
+            out.append(n)
+    return out
+
+
 def rule_dfs_epilogue(prog, fixture=False):
     r = RuleResult("R-C11-1", "dfs main can return 0 after running a command only if std::cout was flushed and "
                    "then tested good, with nothing written to it in between (checked through the status helper "
@@ -152,6 +184,25 @@ def rule_dfs_epilogue(prog, fixture=False):
             if vs is not None and 0 not in vs:
                 r.add(key, fn.loc(n), True, "cannot yield 0", nontrivial=False)
                 continue
+            # a status variable that only ever holds non-zero constants or the status helper's result
+            if e.get("k") == "DeclRefExpr" and e.get("dk") == "Var" and depth < 3:
+                srcs = []
+                for v in fn.walk():
+                    if v.get("k") == "VarDecl" and v.get("d") == e.get("d") and v.get("c"):
+                        srcs.append(v["c"][0])
+                    if v.get("k") == "BinaryOperator" and v.get("op") == "=" and (strip_all(v["c"][0]) or {}).get("d") == e.get("d"):
+                        srcs.append(v["c"][1])
+                calls = [strip_all(x) for x in srcs if folded(x) is None]
+                if srcs and all(folded(x) not in (0,) for x in srcs) and calls and all(
+                        c is not None and is_call(c) and prog.call_targets(fn, c) and
+                        all(_is_status_helper(prog, t) for t in prog.call_targets(fn, c)) for c in calls):
+                    for c in calls:
+                        for t in prog.call_targets(fn, c):
+                            if t.uid not in checked:
+                                checked.append(t.uid)
+                                check_returns(t, depth + 1)
+                    r.add(key, fn.loc(n), True, "status variable fed only by the status helper (checked) and non-zero constants")
+                    continue
             # delegated to a helper?
             if is_call(e) and depth < 3:
                 tgs = prog.call_targets(fn, e)
@@ -170,6 +221,11 @@ def rule_dfs_epilogue(prog, fixture=False):
                 r.add(key, fn.loc(n), True, "no command has run on any path to this return", nontrivial=False)
                 continue
             bad = sorted(s for s in st if s != "T")
+            if bad and cout_state_as_value(fn):
+                r.undecided.append("%s: std::cout's state is captured as a value (%s) and decided on elsewhere; the "
+                                   "typestate rule follows branches on the stream only" %
+                                   (fn.loc(n), show(cout_state_as_value(fn)[0])[:40]))
+                continue
             if bad:
                 why = {"U": "standard output may hold unflushed data or an unnoticed error",
                        "F": "std::cout was flushed but its state was not tested afterwards"}[bad[0]]
@@ -440,8 +496,15 @@ def rule_ofstream_typestate(prog, fixture=False):
 def _is_failure_value(rv):
     if rv is None:
         return False
-    if rv.get("k") == "DeclRefExpr" and rv.get("n") == "nullopt":
+    x = rv
+    for _ in range(4):
+        if x is not None and x.get("k") in ("CXXConstructExpr", "CXXFunctionalCastExpr", "CXXTemporaryObjectExpr") and len(x.get("c", [])) == 1:
+            x = strip_all(x["c"][0])
+    if x is not None and x.get("k") == "DeclRefExpr" and x.get("n") == "nullopt":
         return True
+    if x is not None and x.get("k") in ("CXXConstructExpr", "InitListExpr") and not x.get("c") and \
+            "optional" in ((rv.get("ct") or rv.get("t") or "")):
+        return True     # `return {};` from a function returning std::optional
     return False
 
 
